@@ -84,3 +84,18 @@ Example C10_nonvacuous :
   c10_wire_ok [[SockNew 1; Tx 1 KPublish0; Tx 1 KConnect]] = false /\
   c10_wire_ok [[SockNew 1; Tx 1 KConnect; Tx 1 KDisconnect; Tx 1 KPublish0]] = false.
 Proof. vm_compute. repeat split; reflexivity. Qed.
+
+(* loop_read() while messages are stored handles several packets in one call (TLoopReadN: one input per packet, each
+   iteration with its own snapshot of the socket): the theorems above quantify over such operations too.  Here the
+   CONNACK rc 1 of the first packet makes the client replace the socket (downgrade retry) and the SAME call reads the
+   end of the new connection: that connection ends with exactly one on_disconnect and nothing claims to be connected. *)
+Definition nv_multi : list op :=
+  [ O (TConnect true); O (TLoopReadN [IConnackDowngrade true; IEof]);
+    O (TReconnect true);
+    mkOp (TLoopReadN [IConnack 0; IConnack 5]) [] (mkScr [[AReconnect true]] [] [] [] [] [] [] []);
+    O (TReconnect true); O (TLoopReadN [IConnack 0; IPingreq; IRecvError]) ].
+Example C10_multi_packet_read :
+  c10_ops_ok direct nv_multi = true /\ all_c10 direct nv_multi = true /\
+  length (filter (fun e => match e with CbDisconnect _ _ => true | _ => false end) (concat (optrace direct nv_multi))) = 3%nat /\
+  length (filter (fun e => match e with ConnEnd _ _ => true | _ => false end) (concat (optrace direct nv_multi))) = 5%nat.
+Proof. vm_compute. repeat split; reflexivity. Qed.
